@@ -286,8 +286,9 @@ theorem standardize_defocus (syms : List String) (aliases : List (String × Stri
 end aliasLemmas
 set_option maxHeartbeats 1600000 in
 /-- the translated loop body of `standardize_aberration_coefs` is the hand model's step, for EVERY key and value -/
-theorem standardize_step_translated (out : List (String × ℝ)) (k : String) (v : Option ℝ) :
-    standardize_aberration_coefs_step out k v = standardizeStep POLAR_SYMBOLS POLAR_ALIASES out k v := by
+theorem standardize_step_translated (out : List (String × ℝ)) (k : String) (v : Option (TVal ℝ)) :
+    standardize_aberration_coefs_step out k v
+      = standardizeStep POLAR_SYMBOLS POLAR_ALIASES out k (v.map TVal.toFloat) := by
   by_cases hk : k ∈ ALIAS_KEY_UNIVERSE
   · simp only [ALIAS_KEY_UNIVERSE, List.mem_cons, List.not_mem_nil, or_false] at hk
     rcases hk with rfl | rfl | rfl | rfl | rfl | rfl | rfl | rfl | rfl | rfl | rfl | rfl | rfl | rfl | rfl | rfl |
@@ -302,9 +303,9 @@ theorem standardize_step_translated (out : List (String × ℝ)) (k : String) (v
 
 set_option maxHeartbeats 1600000 in
 /-- the translated loop body of `validators.validate_aberration_coefficients` (its own table copies) -/
-theorem validate_step_translated (out : List (String × ℝ)) (k : String) (v : Option ℝ) :
+theorem validate_step_translated (out : List (String × ℝ)) (k : String) (v : Option (TVal ℝ)) :
     validate_aberration_coefficients_step out k v
-      = .ok (processStep VALIDATORS_POLAR_SYMBOLS VALIDATORS_POLAR_ALIASES out k v) := by
+      = .ok (processStep VALIDATORS_POLAR_SYMBOLS VALIDATORS_POLAR_ALIASES out k (v.map TVal.toFloat)) := by
   by_cases hk : k ∈ ALIAS_KEY_UNIVERSE
   · simp only [ALIAS_KEY_UNIVERSE, List.mem_cons, List.not_mem_nil, or_false] at hk
     rcases hk with rfl | rfl | rfl | rfl | rfl | rfl | rfl | rfl | rfl | rfl | rfl | rfl | rfl | rfl | rfl | rfl |
@@ -317,8 +318,9 @@ theorem validate_step_translated (out : List (String × ℝ)) (k : String) (v : 
 
 set_option maxHeartbeats 1600000 in
 /-- the translated loop body of the `ProbeBase.probe_params` setter (non-dict values) -/
-theorem probe_params_step_translated (out : List (String × ℝ)) (k : String) (v : Option ℝ) :
-    probe_params_setter_step out k v = .ok (processStep POLAR_SYMBOLS POLAR_ALIASES out k v) := by
+theorem probe_params_step_translated (out : List (String × ℝ)) (k : String) (v : Option (TVal ℝ)) :
+    probe_params_setter_step out k v
+      = .ok (processStep POLAR_SYMBOLS POLAR_ALIASES out k (v.map TVal.toFloat)) := by
   by_cases hk : k ∈ ALIAS_KEY_UNIVERSE
   · simp only [ALIAS_KEY_UNIVERSE, List.mem_cons, List.not_mem_nil, or_false] at hk
     rcases hk with rfl | rfl | rfl | rfl | rfl | rfl | rfl | rfl | rfl | rfl | rfl | rfl | rfl | rfl | rfl | rfl |
